@@ -565,8 +565,30 @@ pub fn eval_c11(buf: &[u8]) -> (Sigs, Vec<String>) {
     (out, br)
 }
 
+/// rendering of one frame in the alloc-only build (worker process) against the template
+pub fn eval_c11_nostd(worker: &mut crate::configs::Worker, buf: &[u8]) -> Sigs {
+    let Decoded::Ok(frame) = decode(buf) else { return vec![] };
+    let answers = worker.ask(&["R".to_string(), format!("F {}", bits::hex(buf))]);
+    let Some(a) = answers.get(1) else { return vec![] };
+    let Some(i) = a.find("DISPLAY ") else { return vec![] };
+    let rest = &a[i + 8..];
+    let end = [rest.find("\nCALC "), rest.find("\nPAIR ")].into_iter().flatten().min().map(|e| e + 1).unwrap_or(rest.len());
+    let got = &rest[..end];
+    let (want, br) = refrender(&frame);
+    if got.trim_end_matches('\n') == want.trim_end_matches('\n') {
+        return vec![];
+    }
+    let (g, w) = got.lines().zip(want.lines()).find(|(g, w)| g != w).map(|(g, w)| (g.to_string(), w.to_string())).unwrap_or((format!("{} lines", got.lines().count()), format!("{} lines", want.lines().count())));
+    let tmpl = br.iter().find(|x| x.starts_with("me:") || x.starts_with("bds:")).cloned().unwrap_or_default();
+    vec![(format!("C11/no_std/template/{tmpl}"), format!("alloc-only build: rendering differs from the template: got {g:?}, template gives {w:?}"))]
+}
+
 pub fn replay_c11(v: &Value) -> Vec<Failure> {
     let Some(buf) = bits::unhex(v.get("hex").and_then(|h| h.as_str()).unwrap_or("")) else { return vec![] };
+    if v.get("kind").and_then(|k| k.as_str()) == Some("frame_nostd") {
+        let mut worker = crate::configs::Worker::spawn();
+        return eval_c11_nostd(&mut worker, &buf).into_iter().map(|(sig, msg)| Failure { sig, msg, replay: v.clone() }).collect();
+    }
     eval_c11(&buf).0.into_iter().map(|(sig, msg)| Failure { sig, msg, replay: v.clone() }).collect()
 }
 
@@ -736,6 +758,62 @@ pub fn run_c11(ctx: &Ctx) -> ! {
         }
         st.class("sweep: altitude and identity codes, target state words");
     });
+    // ---- the same template in the alloc-only (no_std) build: a sample of frames is rendered by
+    // the worker process that links the library without std, and compared with the template
+    // instantiated with the (std-)decoded values
+    {
+        use crate::configs::Worker;
+        let mut rng = ctx.rng(1177, 0);
+        let mut worker = Worker::spawn();
+        let n = ctx.tier.pick(30_000usize, 600_000);
+        let mut frames: Vec<Vec<u8>> = Vec::with_capacity(n);
+        for i in 0..n {
+            let df = match i % 8 {
+                0..=3 => 17,
+                4 => 18,
+                _ => *rng.pick(&SUPPORTED_DF),
+            };
+            let mut b = gen_frame_df(&mut rng, df);
+            if (df == 17 || df == 18) && i % 2 == 0 {
+                let tc = *rng.pick(&[19u8, 19, 19, 29, 31, 28, 4, 11, 20, 7]);
+                let mut me = gen_me(&mut rng, tc);
+                if tc == 31 {
+                    bits::set(&mut me, 6, 3, rng.below(2));
+                    make_ops_acceptable(&mut rng, &mut me);
+                }
+                if tc == 19 {
+                    bits::set(&mut me, 6, 3, 1 + rng.below(4));
+                    if bits::get(&me, 38, 9) == 0 || rng.chance(1, 2) {
+                        bits::set(&mut me, 38, 9, 1 + rng.below(511));
+                    }
+                }
+                b[4..11].copy_from_slice(&me);
+            }
+            frames.push(b);
+        }
+        let mut reported = false;
+        for chunk in frames.chunks(512) {
+            let reqs: Vec<String> = chunk.iter().map(|b| format!("F {}", bits::hex(b))).collect();
+            let answers = worker.ask(&reqs);
+            for (b, a) in chunk.iter().zip(answers.iter()) {
+                let Decoded::Ok(frame) = decode(b) else { continue };
+                st.eval();
+                let Some(i) = a.find("DISPLAY ") else { continue };
+                let rest = &a[i + 8..];
+                let end = [rest.find("\nCALC "), rest.find("\nPAIR ")].into_iter().flatten().min().map(|e| e + 1).unwrap_or(rest.len());
+                let got = &rest[..end];
+                let (want, br) = refrender(&frame);
+                // (the transcript ends the report with one more newline)
+                if got.trim_end_matches('\n') != want.trim_end_matches('\n') && !reported {
+                    reported = true;
+                    let (g, w) = got.lines().zip(want.lines()).find(|(g, w)| g != w).map(|(g, w)| (g.to_string(), w.to_string())).unwrap_or((format!("{} lines", got.lines().count()), format!("{} lines", want.lines().count())));
+                    let tmpl = br.iter().find(|x| x.starts_with("me:") || x.starts_with("bds:")).cloned().unwrap_or_default();
+                    st.fail(Failure { sig: format!("C11/no_std/template/{tmpl}"), msg: format!("alloc-only build: rendering differs from the template: got {g:?}, template gives {w:?} (frame {})", bits::hex(b)), replay: json!({"kind": "frame_nostd", "hex": bits::hex(b)}) });
+                }
+            }
+        }
+        st.class_n("rendering in the alloc-only build", n as u64);
+    }
     st.exhaustive.push("every pair of velocity components (1024 x 1024) under both ground-speed subtypes".into());
     st.exhaustive.push("every vertical-rate word (2^11), GNSS difference (2^8) and heading/airspeed word under every type-19 subtype".into());
     st.exhaustive.push("every 13-bit altitude / identity code under DF0/4/5/16/20/21, every 12-bit altitude code under every position type code, every type-28 identity code, every type-29 selected altitude / QNH / heading word".into());
